@@ -482,14 +482,38 @@ mod verif_c03_packet {
         }
     }
 
-    /// the result the header_*_contract harnesses prove for a long header whose DCID/SCID length byte is
-    /// above 20 [error_iff_cid_len_over_20]
-    fn contract_be_header_cid_too_long(packet_type: Type, _dcid_len: usize, input: &[u8]) -> nom::IResult<&[u8], Header> {
-        kani::assume(matches!(packet_type, Type::Long(_)));
-        Err(nom::Err::Error(nom::error::make_error(input, nom::error::ErrorKind::TooLarge)))
+    /// region selector of the recorded finding: "the long header carries a DCID/SCID length byte > 20".
+    /// Written by the harness, read by the be_header contract stub.
+    static mut CID_LEN_OVER_20: bool = false;
+    /// set by the stub when it returned the result proved for that region
+    static mut CID_ERROR_RETURNED: bool = false;
+
+    /// any result permitted by the header_*_contract harnesses: in the region "cid length byte > 20" a long
+    /// header yields nom::Err::Error(TooLarge) [C03.packet.header.long.error_iff_cid_len_over_20],
+    /// otherwise see `contract_be_header_legal`.
+    fn contract_be_header(packet_type: Type, dcid_len: usize, input: &[u8]) -> nom::IResult<&[u8], Header> {
+        if unsafe { CID_LEN_OVER_20 } && matches!(packet_type, Type::Long(_)) {
+            unsafe { CID_ERROR_RETURNED = true };
+            return Err(nom::Err::Error(nom::error::make_error(input, nom::error::ErrorKind::TooLarge)));
+        }
+        contract_be_header_legal(packet_type, dcid_len, input)
     }
 
-    fn glue_body<const M: usize>() {
+    struct GlueRun<const M: usize> {
+        b: [u8; M],
+        n: usize,
+        dcid_len: usize,
+        dg: BytesMut,
+        r: Result<Packet, Error>,
+    }
+
+    /// run the REAL be_packet on an arbitrary datagram of up to M bytes.
+    /// `cid_len_over_20`: select the finding's region (see CID_LEN_OVER_20).
+    fn glue_run<const M: usize>(cid_len_over_20: bool) -> GlueRun<M> {
+        unsafe {
+            CID_LEN_OVER_20 = cid_len_over_20;
+            CID_ERROR_RETURNED = false;
+        }
         let b: [u8; M] = kani::any();
         let n: usize = kani::any();
         kani::assume(n <= M);
@@ -498,6 +522,12 @@ mod verif_c03_packet {
         let mut dg = BytesMut::from(&b[..]);
         dg.truncate(n);
         let r = be_packet(&mut dg, dcid_len);
+        GlueRun { b, n, dcid_len, dg, r }
+    }
+
+    /// postconditions of be_packet outside the finding's region
+    fn glue_body<const M: usize>() {
+        let GlueRun { b, n, dcid_len, dg, r } = glue_run::<M>(false);
         let left = dg.len();
         match r {
             Ok(Packet::Data(p)) => {
@@ -541,8 +571,26 @@ mod verif_c03_packet {
     #[kani::unwind(9)]
     #[kani::stub(core::fmt::write, noop_fmt_write)]
     #[kani::stub(be_packet_type, contract_be_packet_type)]
-    #[kani::stub(be_header, contract_be_header_legal)]
+    #[kani::stub(be_header, contract_be_header)]
     fn be_packet_glue_contract() {
+        //   "C03.packet.be_packet.data.offset_ge_1" "C03.packet.be_packet.data.offset_plus_20_inside_packet"
+        //   "C03.packet.be_packet.data.splits_datagram_without_loss" "C03.packet.be_packet.ok_consumes_input"
+        //   "C03.packet.be_packet.data.packet_bytes_are_datagram_prefix" "C03.packet.be_packet.data.rest_is_datagram_suffix"
+        //   "C03.packet.be_packet.short.takes_rest_of_datagram" "C03.packet.be_packet.vn_retry_consume_datagram"
+        //   "C03.packet.be_packet.err_is_a_drop_reason"
+        // KNOWN FINDING excluded here and pinned by `be_packet_cid_len_over_20` (same body, region = true).
+        // After a fix in /repo drop `"expect_fail"` from that harness in unit.json: the two harnesses together
+        // then cover the whole domain, including "cid length byte > 20 => Err, datagram dropped, no panic".
+        glue_body::<30>();
+    }
+
+    /// the same glue contract on a 40-byte datagram bound (thorough tier)
+    #[kani::proof]
+    #[kani::unwind(9)]
+    #[kani::stub(core::fmt::write, noop_fmt_write)]
+    #[kani::stub(be_packet_type, contract_be_packet_type)]
+    #[kani::stub(be_header, contract_be_header)]
+    fn mid_be_packet_glue_contract() {
         //   "C03.packet.be_packet.data.offset_ge_1" "C03.packet.be_packet.data.offset_plus_20_inside_packet"
         //   "C03.packet.be_packet.data.splits_datagram_without_loss" "C03.packet.be_packet.ok_consumes_input"
         //   "C03.packet.be_packet.data.packet_bytes_are_datagram_prefix" "C03.packet.be_packet.data.rest_is_datagram_suffix"
@@ -556,8 +604,8 @@ mod verif_c03_packet {
     #[kani::unwind(9)]
     #[kani::stub(core::fmt::write, noop_fmt_write)]
     #[kani::stub(be_packet_type, contract_be_packet_type)]
-    #[kani::stub(be_header, contract_be_header_legal)]
-    fn be_packet_glue_contract_full() {
+    #[kani::stub(be_header, contract_be_header)]
+    fn full_be_packet_glue_contract() {
         //   "C03.packet.be_packet.data.offset_ge_1" "C03.packet.be_packet.data.offset_plus_20_inside_packet"
         //   "C03.packet.be_packet.data.splits_datagram_without_loss" "C03.packet.be_packet.ok_consumes_input"
         //   "C03.packet.be_packet.data.packet_bytes_are_datagram_prefix" "C03.packet.be_packet.data.rest_is_datagram_suffix"
@@ -571,14 +619,21 @@ mod verif_c03_packet {
     /// C03.packet.header.long.error_iff_cid_len_over_20); be_packet maps every non-Incomplete error of
     /// be_header to `unreachable!("parsing packet header never generates error or failure")` => panic in
     /// the receive task on a 6-byte datagram, before any authentication.
-    /// Same glue harness as above, be_header replaced by exactly that proved result.
+    /// Same glue harness as above, run in that region: be_header's contract stub returns exactly the proved
+    /// result. States the INTENDED behaviour (`Err`, no panic); fails today on the `unreachable!`.
     #[kani::proof]
     #[kani::unwind(9)]
     #[kani::stub(core::fmt::write, noop_fmt_write)]
     #[kani::stub(be_packet_type, contract_be_packet_type)]
-    #[kani::stub(be_header, contract_be_header_cid_too_long)]
+    #[kani::stub(be_header, contract_be_header)]
     fn be_packet_cid_len_over_20() {
-        glue_body::<8>();
+        let g = glue_run::<8>(true);
+        // the rest of the domain is be_packet_glue_contract's; here only the paths on which be_header
+        // reported the over-long connection id
+        kani::assume(unsafe { CID_ERROR_RETURNED });
+        // INTENDED behaviour (RFC 9000 §17.2 "MUST drop the packet"): an error value (any), never a panic
+        assert!(g.r.is_err(), "C03.packet.be_packet.cid_len_over_20.is_dropped");
+        kani::cover!(g.n == 6, "C03.packet.be_packet.cid_len_over_20.reach_6_byte_datagram");
     }
 
     /// the same finding on the unmodified call chain (no stubs except message formatting), datagram
@@ -586,7 +641,7 @@ mod verif_c03_packet {
     #[kani::proof]
     #[kani::unwind(9)]
     #[kani::stub(core::fmt::write, noop_fmt_write)]
-    fn be_packet_cid_len_over_20_unstubbed() {
+    fn unstubbed_be_packet_cid_len_over_20() {
         let mut b = [0xC0u8, 0, 0, 0, 1, 21];
         let x: u8 = kani::any();
         kani::assume(x > 20);
@@ -618,7 +673,7 @@ mod verif_c03_packet {
     /// the same contract on the larger input bound (thorough tier)
     #[kani::proof]
     #[kani::unwind(3)]
-    fn header_handshake_zero_rtt_contract_full() {
+    fn full_header_handshake_zero_rtt_contract() {
         //   "C03.packet.header.hs0rtt.incomplete_iff_cids_truncated"
         //   "C03.packet.header.hs0rtt.rest_starts_behind_scid"
         //   "C03.packet.header.hs0rtt.variant_matches_type"
@@ -659,7 +714,7 @@ mod verif_c03_packet {
     /// the same contract on the larger input bound (thorough tier)
     #[kani::proof]
     #[kani::unwind(9)]
-    fn header_initial_contract_full() {
+    fn full_header_initial_contract() {
         //   "C03.packet.header.initial.err_if_cids_bad"
         //   "C03.packet.header.initial.err_is_incomplete_when_cids_ok"
         //   "C03.packet.header.initial.incomplete_only_if_token_truncated"
@@ -706,7 +761,7 @@ mod verif_c03_packet {
     /// the same contract on the larger input bound (thorough tier)
     #[kani::proof]
     #[kani::unwind(3)]
-    fn header_retry_contract_full() {
+    fn full_header_retry_contract() {
         //   "C03.packet.header.retry.consumes_whole_datagram"
         //   "C03.packet.header.retry.err_if_cids_bad"
         //   "C03.packet.header.retry.err_is_incomplete_when_cids_ok"
@@ -753,7 +808,7 @@ mod verif_c03_packet {
     /// the same contract on the larger input bound (thorough tier)
     #[kani::proof]
     #[kani::unwind(9)]
-    fn header_vn_contract_full() {
+    fn full_header_vn_contract() {
         //   "C03.packet.header.vn.consumes_whole_datagram"
         //   "C03.packet.header.vn.err_if_cids_bad"
         //   "C03.packet.header.vn.err_is_incomplete_when_cids_ok"
